@@ -135,7 +135,7 @@ class Run:
             w.current_group = groups[parent]
             with w.group():
                 groups[gid] = w.current_group
-        ents = {}
+        ents, ents2 = {}, {}
         byid = {s["sid"]: s for s in scen["sims"]}
         order = cfg.get("order") or scen.get("order") or [s["sid"] for s in scen["sims"]]
         for sid in order:
@@ -144,7 +144,11 @@ class Run:
             with warnings.catch_warnings():
                 warnings.simplefilter("ignore")
                 name = f"Stub_{sid}" if (s.get("cls") or s.get("cfg_version")) else "Stub"
-                ents[sid] = w.start(name, sim_id=sid, spec=s).M()
+                mock = w.start(name, sim_id=sid, spec=s).M
+                if s.get("ents", 1) == 2:
+                    ents[sid], ents2[sid] = mock.create(2)
+                else:
+                    ents[sid] = mock()
         w.current_group = w.main_group
         self.ents = ents
         for c in scen["conns"]:
@@ -160,10 +164,11 @@ class Run:
             pairs = [(c["sattr"], c["dattr"])] if c.get("sattr") else []
             with warnings.catch_warnings():
                 warnings.simplefilter("ignore")
-                dst_ent = ents[c["dst"]]
+                dst_ent = ents2[c["dst"]] if c.get("deid") == "f" else ents[c["dst"]]
                 if c.get("deid") == "k":
                     dst_ent = dst_ent.children[0]
-                w.connect(ents[c["src"]], dst_ent, *pairs, **kw)
+                src_ent = ents2[c["src"]] if c.get("seid") == "f" else ents[c["src"]]
+                w.connect(src_ent, dst_ent, *pairs, **kw)
         for s in scen["sims"]:
             if s.get("init_event") is not None:
                 w.set_initial_event(s["sid"], s["init_event"])
@@ -230,4 +235,4 @@ class Run:
 
 
 def init_token(c):
-    return "init_" + c["src"]
+    return "init_" + c["src"] + ("F" if c.get("seid") == "f" else "")
